@@ -876,7 +876,7 @@ class Py2Cpp(ITranspiler):
 				var_symbol = self.reflections.type_of(var_value).impl(refs.Object)
 				var_type = self.to_domain_name(var_symbol)
 				literal = var_value.tokens if var_value.is_a(defs.Literal) else str(self.evaluator.exec(var_value))
-				return self.render(node, f'{node.classification}/literalize', vars={'prop': org_prop, 'var_type': var_type, 'is_statement': is_statement, 'literal': literal[1:-1] if var_symbol.type_is(str) else literal})
+				return self.render(node, f'{node.classification}/literalize', vars={'prop': org_prop, 'var_type': var_type, 'is_statement': is_statement, 'literal': self.to_double_quoted(literal)[1:-1] if var_symbol.type_is(str) else literal})
 			else:
 				return self.render(node, f'{node.classification}/literalize', vars={'prop': org_prop, 'var_type': str.__name__, 'is_statement': is_statement, 'literal': receiver})
 		elif self.is_relay_this(node):
